@@ -17,8 +17,9 @@
 //! After EVERY step the harness checks from outside what the planned `cfg(risechain_revm_verif)` hook would assert inside
 //! `Interpreter::step`: `program_counter() < bytecode.len()`; a failure is the reply `oob-code`. A Rust panic is the reply `panic`.
 use crate::*;
+use revm::interpreter::analysis::{validate_eof_inner, CodeType};
 use revm::interpreter::{
-    opcode::{make_instruction_table, InstructionTable},
+    opcode::{make_instruction_table, InstructionTable, OPCODE_INFO_JUMPTABLE},
     AccountLoad, CallOutcome, CallScheme, CallValue, Contract, CreateOutcome, CreateScheme, Eip7702CodeLoad, Gas, Host,
     EOFCreateKind, InstructionResult, Interpreter, InterpreterAction, InterpreterResult, SStoreResult,
     SelfDestructResult, SharedMemory, StateLoad,
@@ -661,6 +662,18 @@ impl Params {
             }
         }
     }
+    /// does the real `validate_eof_inner` accept the container (as a runtime or as an init container)?
+    pub fn validated(&self) -> bool {
+        match self.bytecode() {
+            Bytecode::Eof(eof) => {
+                let e: &revm::primitives::Eof = &eof;
+                [None, Some(CodeType::ReturnOrStop), Some(CodeType::ReturnContract)].into_iter().any(|t| {
+                    std::panic::catch_unwind(AssertUnwindSafe(|| validate_eof_inner(e, t).is_ok())).unwrap_or(false)
+                })
+            }
+            _ => false,
+        }
+    }
     fn interpreter(&self) -> Interpreter {
         let contract = Contract::new(
             Bytes::from(self.input.clone()),
@@ -1021,10 +1034,12 @@ impl Session {
 /// executor: a pure function of the request lines
 pub struct Exec {
     sess: Option<Session>,
+    /// the verdict of the real validator on the container of the running EOF session
+    validated: Option<bool>,
 }
 impl Exec {
     pub fn new() -> Exec {
-        Exec { sess: None }
+        Exec { sess: None, validated: None }
     }
     pub fn line(&mut self, line: &str) -> String {
         let t: Vec<&str> = line.split(' ').collect();
@@ -1036,6 +1051,7 @@ impl Exec {
                         Ok(s) => {
                             let out = format!("ok len={} pc={}", s.interp.bytecode.len(), s.interp.program_counter());
                             self.sess = Some(s);
+                            self.validated = None;
                             out
                         }
                         Err(_) => {
@@ -1056,18 +1072,27 @@ impl Exec {
                         Ok(s) => {
                             let out = format!("ok len={} pc={}", s.interp.bytecode.len(), s.interp.program_counter());
                             self.sess = Some(s);
+                            self.validated = Some(p.validated());
                             out
                         }
                         Err(_) => {
                             self.sess = None;
+                            self.validated = None;
                             "panic".into()
                         }
                     }
                 }
                 None => {
                     self.sess = None;
+                    self.validated = None;
                     "bad-op".into()
                 }
+            },
+            // `i wf <tag> <v>`: `<v>` = the verdict of the real validator on the container of this session (checked
+            // here); the model answers `wf-gap` when `<v>` = 1 and its well-formedness predicate says no
+            ["i", "wf", _tag, v] => match (&self.sess, self.validated, parse_bool(v)) {
+                (Some(s), Some(mine), Some(v)) if s.interp.is_eof && mine == v => format!("wfok v={}", b01(v)),
+                _ => "bad-op".into(),
             },
             ["i", "s", _tag, resp] => match (&mut self.sess, Resp::parse(resp)) {
                 (Some(s), Some(r)) if !s.dead && !s.pending_action() => s.step(r),
@@ -1628,6 +1653,13 @@ fn gen_case(r: &mut Rng, p: &Params, max_steps: usize, out: &mut Out, lines: &mu
     if !rep.starts_with("ok ") {
         return;
     }
+    if p.eof.is_some() {
+        let v = ex.validated.unwrap_or(false);
+        out.count(if v { "eof:validated" } else { "eof:not-validated" });
+        let l = format!("i wf {}.wf {}", case_id, b01(v));
+        ex.line(&l);
+        lines.push(l);
+    }
     let mut steps = 0;
     loop {
         let Some(sess) = ex.sess.as_ref() else { break };
@@ -2065,6 +2097,458 @@ fn gen_eof_params(r: &mut Rng) -> Params {
     p
 }
 
+
+// ---------------------------------------------------------------- valid EOF containers
+/// code emitter that tracks the operand stack height the way `validate_eof_code` does
+struct Em {
+    code: Vec<u8>,
+    h: usize,
+    max: usize,
+}
+impl Em {
+    fn new(h: usize) -> Em {
+        Em { code: vec![], h, max: h }
+    }
+    /// at every instruction start
+    fn mark(&mut self) {
+        if self.h > self.max {
+            self.max = self.h;
+        }
+    }
+    fn raw(&mut self, bytes: &[u8], ins: usize, outs: usize) {
+        self.mark();
+        assert!(self.h >= ins);
+        self.code.extend_from_slice(bytes);
+        self.h = self.h - ins + outs;
+    }
+    fn push(&mut self, w: U256, r: &mut Rng) {
+        self.mark();
+        push_word(&mut self.code, w, r);
+        self.h += 1;
+    }
+    fn need(&mut self, n: usize, r: &mut Rng) {
+        while self.h < n {
+            let w = if r.chance(1, 3) { r.word() } else { U256::from(r.below(70)) };
+            self.push(w, r);
+        }
+    }
+    fn set_height(&mut self, n: usize, r: &mut Rng) {
+        while self.h > n {
+            self.raw(&[0x50], 1, 0);
+        }
+        self.need(n, r);
+    }
+    /// a sub-emitter at the same height
+    fn fork(&self) -> Em {
+        Em { code: vec![], h: self.h, max: self.h }
+    }
+    fn join(&mut self, sub: Em) {
+        self.code.extend_from_slice(&sub.code);
+        if sub.max > self.max {
+            self.max = sub.max;
+        }
+    }
+}
+
+struct VCtx {
+    /// (inputs, outputs) per section, 0x80 = non-returning
+    sigs: Vec<(u8, u8)>,
+    data_size: usize,
+    /// sub-containers usable by EOFCREATE (init containers) / by RETURNCONTRACT (runtime containers)
+    init_subs: Vec<u8>,
+    runtime_subs: Vec<u8>,
+    /// is this container itself an init container (no STOP / RETURN) ?
+    init: bool,
+}
+
+fn small_mem(r: &mut Rng) -> U256 {
+    if r.chance(1, 8) {
+        gen_mem_word(r)
+    } else {
+        U256::from(*r.pick(&[0u64, 1, 31, 32, 33, 64, 96, 100, 200]))
+    }
+}
+
+/// a stack-neutral sequence of instructions
+fn v_neutral(e: &mut Em, r: &mut Rng) {
+    for _ in 0..r.below(3) {
+        match r.below(4) {
+            0 => {
+                e.raw(&[0x5f], 0, 1);
+                e.raw(&[0x50], 1, 0);
+            }
+            1 => e.raw(&[0x5b], 0, 0),
+            2 => {
+                e.push(U256::from(r.below(300)), r);
+                e.push(U256::from(r.below(300)), r);
+                e.raw(&[0x01], 2, 1);
+                e.raw(&[0x50], 1, 0);
+            }
+            _ => {
+                e.push(small_mem(r), r);
+                e.raw(&[0x51], 1, 1);
+                e.raw(&[0x50], 1, 0);
+            }
+        }
+    }
+}
+
+/// a terminating sequence for section `idx`
+fn v_term(e: &mut Em, r: &mut Rng, c: &VCtx, idx: usize) {
+    let (_, outs) = c.sigs[idx];
+    let push2 = |e: &mut Em, r: &mut Rng| {
+        e.push(small_mem(r), r);
+        e.push(small_mem(r), r);
+    };
+    if outs != 0x80 {
+        // returning: RETF, or JUMPF to a returning section with at most as many outputs
+        let cands: Vec<usize> =
+            (1..c.sigs.len()).filter(|j| c.sigs[*j].1 != 0x80 && c.sigs[*j].1 <= outs).collect();
+        if !cands.is_empty() && r.chance(1, 4) {
+            let j = *r.pick(&cands);
+            let (ji, jo) = c.sigs[j];
+            e.set_height(outs as usize + ji as usize - jo as usize, r);
+            e.raw(&[0xe5, (j >> 8) as u8, j as u8], ji as usize, 0);
+        } else {
+            e.set_height(outs as usize, r);
+            e.raw(&[0xe4], outs as usize, 0);
+        }
+        return;
+    }
+    let nonret: Vec<usize> = (1..c.sigs.len()).filter(|j| c.sigs[*j].1 == 0x80 && *j != idx).collect();
+    match r.below(6) {
+        0 if !nonret.is_empty() => {
+            let j = *r.pick(&nonret);
+            let ji = c.sigs[j].0 as usize;
+            e.need(ji, r);
+            e.raw(&[0xe5, (j >> 8) as u8, j as u8], ji, 0);
+        }
+        1 => {
+            push2(e, r);
+            e.raw(&[0xfd], 2, 0);
+        }
+        2 => e.raw(&[0xfe], 0, 0),
+        _ if c.init => {
+            if c.runtime_subs.is_empty() {
+                e.raw(&[0xfe], 0, 0);
+            } else {
+                // RETURNCONTRACT: aux_data_offset (top), aux_data_size
+                let sz = match r.below(5) {
+                    0 => U256::from(0xffffu64),
+                    1 => small_mem(r),
+                    _ => U256::from(r.below(40)),
+                };
+                e.push(sz, r);
+                e.push(small_mem(r), r);
+                let k = *r.pick(&c.runtime_subs);
+                e.raw(&[0xee, k], 2, 0);
+            }
+        }
+        3 => {
+            push2(e, r);
+            e.raw(&[0xf3], 2, 0);
+        }
+        _ => e.raw(&[0x00], 0, 0),
+    }
+}
+
+/// `cond; RJUMPI over; <block that ends the frame / the function>; over:`
+fn v_early_exit(e: &mut Em, r: &mut Rng, block: impl FnOnce(&mut Em, &mut Rng)) {
+    e.push(if r.chance(1, 2) { U256::ZERO } else { U256::from(1) }, r);
+    e.mark();
+    e.h -= 1;
+    let mut sub = e.fork();
+    block(&mut sub, r);
+    let off = sub.code.len() as i16;
+    e.code.push(0xe1);
+    e.code.extend_from_slice(&off.to_be_bytes());
+    let h = e.h;
+    e.join(sub);
+    e.h = h;
+}
+
+fn v_callf(e: &mut Em, r: &mut Rng, c: &VCtx, j: usize) {
+    let (ji, jo) = c.sigs[j];
+    e.need(ji as usize, r);
+    e.raw(&[0xe3, (j >> 8) as u8, j as u8], ji as usize, jo as usize);
+}
+
+fn v_eofcreate(e: &mut Em, r: &mut Rng, k: u8) {
+    e.push(small_mem(r), r);
+    e.push(small_mem(r), r);
+    e.push(r.word(), r);
+    e.push(if r.chance(1, 2) { U256::ZERO } else { U256::from(r.below(1000)) }, r);
+    e.raw(&[0xec, k], 4, 1);
+}
+
+fn v_item(e: &mut Em, r: &mut Rng, c: &VCtx, idx: usize) {
+    if e.h > 12 {
+        e.set_height(r.range(0, 6) as usize, r);
+        return;
+    }
+    let returning: Vec<usize> = (1..c.sigs.len()).filter(|j| c.sigs[*j].1 != 0x80).collect();
+    match r.below(24) {
+        0 => {
+            let (op, req) = match r.below(3) {
+                0 => {
+                    let imm = r.below(4) as u8;
+                    ([0xe6u8, imm], imm as usize + 1)
+                }
+                1 => {
+                    let imm = r.below(4) as u8;
+                    ([0xe7, imm], imm as usize + 2)
+                }
+                _ => {
+                    let imm = *r.pick(&[0x00u8, 0x01, 0x10, 0x11, 0x02]);
+                    ([0xe8, imm], (imm >> 4) as usize + (imm & 0xf) as usize + 3)
+                }
+            };
+            e.need(req, r);
+            let outs = if op[0] == 0xe6 { e.h + 1 } else { e.h };
+            let ins = e.h;
+            e.raw(&op, ins, outs);
+        }
+        1 if c.data_size >= 32 => {
+            let off = r.below(c.data_size as u64 - 31) as u16;
+            e.raw(&[0xd1, (off >> 8) as u8, off as u8], 0, 1);
+        }
+        2 | 3 if !returning.is_empty() => {
+            let j = *r.pick(&returning);
+            v_callf(e, r, c, j);
+        }
+        4 | 5 => {
+            // conditional forward jump over a neutral block
+            e.push(if r.chance(1, 2) { U256::ZERO } else { r.word() }, r);
+            e.mark();
+            e.h -= 1;
+            let mut sub = e.fork();
+            v_neutral(&mut sub, r);
+            let off = sub.code.len() as i16;
+            e.code.push(0xe1);
+            e.code.extend_from_slice(&off.to_be_bytes());
+            e.join(sub);
+        }
+        6 => {
+            // RJUMPV over neutral blocks
+            let m = r.range(1, 3) as usize;
+            e.push(match r.below(4) { 0 => U256::MAX, 1 => U256::from(u64::MAX), _ => U256::from(r.below(m as u64 + 2)) }, r);
+            e.mark();
+            e.h -= 1;
+            let mut blocks = vec![];
+            let mut starts = vec![0usize];
+            for _ in 0..=m {
+                let mut sub = e.fork();
+                v_neutral(&mut sub, r);
+                starts.push(starts.last().unwrap() + sub.code.len());
+                blocks.push(sub);
+            }
+            e.code.push(0xe2);
+            e.code.push((m - 1) as u8);
+            for _ in 0..m {
+                let t = starts[r.below(starts.len() as u64) as usize] as i16;
+                e.code.extend_from_slice(&t.to_be_bytes());
+            }
+            for b in blocks {
+                e.join(b);
+            }
+        }
+        7 => {
+            // a counted loop with a backward RJUMPI
+            e.push(U256::from(r.range(1, 4)), r);
+            let l = e.code.len();
+            v_neutral(e, r);
+            e.push(U256::from(1), r);
+            e.raw(&[0x90], 2, 2);
+            e.raw(&[0x03], 2, 1);
+            e.raw(&[0x80], 1, 2);
+            e.mark();
+            e.h -= 1;
+            let off = (l as i64 - (e.code.len() as i64 + 3)) as i16;
+            e.code.push(0xe1);
+            e.code.extend_from_slice(&off.to_be_bytes());
+            e.raw(&[0x50], 1, 0);
+        }
+        8 => {
+            let op = *r.pick(&[0xf8u8, 0xf9, 0xfb]);
+            if op == 0xf8 {
+                e.push(if r.chance(1, 2) { U256::ZERO } else { U256::from(r.below(1000)) }, r);
+            }
+            e.push(small_mem(r), r);
+            e.push(small_mem(r), r);
+            e.push(if r.chance(1, 10) { r.word() } else { gen_addr(r) }, r);
+            e.raw(&[op], if op == 0xf8 { 4 } else { 3 }, 1);
+        }
+        9 if !c.init_subs.is_empty() => {
+            let k = *r.pick(&c.init_subs);
+            v_eofcreate(e, r, k);
+        }
+        10 => {
+            let c2 = VCtx {
+                sigs: c.sigs.clone(),
+                data_size: c.data_size,
+                init_subs: c.init_subs.clone(),
+                runtime_subs: c.runtime_subs.clone(),
+                init: c.init,
+            };
+            v_early_exit(e, r, |s, r| v_term(s, r, &c2, idx));
+        }
+        11 => {
+            // RJUMP to the next instruction
+            e.mark();
+            e.code.extend_from_slice(&[0xe0, 0, 0]);
+        }
+        _ => {
+            let op = *r.pick(EOF_PLAIN_OPS);
+            let Some(info) = OPCODE_INFO_JUMPTABLE[op as usize] else { return };
+            if info.is_disabled_in_eof() {
+                return;
+            }
+            let (ins, outs) = (info.inputs() as usize, info.outputs() as usize);
+            if (0x80..=0x9f).contains(&op) {
+                e.need(ins, r);
+            } else {
+                let ops: Vec<U256> = match op {
+                    0x51 => vec![small_mem(r)],
+                    0x52 | 0x53 => vec![small_mem(r), r.word()],
+                    0x5e | 0x37 | 0x3e | 0xd3 => vec![small_mem(r), small_mem(r), small_mem(r)],
+                    0x20 => vec![small_mem(r), small_mem(r)],
+                    0xa0 | 0xa1 => {
+                        let mut v = vec![small_mem(r), small_mem(r)];
+                        if op == 0xa1 {
+                            v.push(r.word());
+                        }
+                        v
+                    }
+                    _ => eof_operands(op, r),
+                };
+                if ops.len() != ins {
+                    return;
+                }
+                for w in ops.iter().rev() {
+                    e.push(*w, r);
+                }
+            }
+            e.raw(&[op], ins, outs);
+        }
+    }
+}
+
+/// a container the real validator accepts (checked by the caller): stack heights tracked, every section and
+/// sub-container reached, jumps on instruction starts, exact `max_stack_size`
+fn gen_eof_valid(r: &mut Rng) -> Params {
+    let nsec = r.range(1, 4) as usize;
+    let mut sigs: Vec<(u8, u8)> = vec![(0, 0x80)];
+    for _ in 1..nsec {
+        sigs.push((r.below(3) as u8, if r.chance(1, 4) { 0x80 } else { r.below(3) as u8 }));
+    }
+    let init = r.chance(1, 4);
+    let data = match r.below(3) {
+        0 => vec![],
+        _ => rbytes(r, 32, 80),
+    };
+    // sub-containers: runtime ones (for RETURNCONTRACT, only in an init container), init ones (for EOFCREATE)
+    let runtime_sub = |r: &mut Rng| -> Vec<u8> {
+        let body = EofBody {
+            types_section: vec![TypesSection { inputs: 0, outputs: 0x80, max_stack_size: 0 }],
+            code_section: vec![Bytes::from(vec![if r.chance(1, 2) { 0x00 } else { 0xfe }])],
+            container_section: vec![],
+            data_section: Bytes::from(rbytes(r, 0, 40)),
+            is_data_filled: true,
+        };
+        body.into_eof().raw.to_vec()
+    };
+    let mut containers: Vec<Vec<u8>> = vec![];
+    let mut init_subs = vec![];
+    let mut runtime_subs = vec![];
+    if init {
+        for _ in 0..r.range(1, 2) {
+            runtime_subs.push(containers.len() as u8);
+            containers.push(runtime_sub(r));
+        }
+    }
+    if r.chance(1, 2) {
+        for _ in 0..r.range(1, 2) {
+            init_subs.push(containers.len() as u8);
+            let inner = runtime_sub(r);
+            let body = EofBody {
+                types_section: vec![TypesSection { inputs: 0, outputs: 0x80, max_stack_size: 2 }],
+                code_section: vec![Bytes::from(vec![0x5f, 0x5f, 0xee, 0x00])],
+                container_section: vec![Bytes::from(inner)],
+                data_section: Bytes::from(rbytes(r, 0, 20)),
+                is_data_filled: true,
+            };
+            containers.push(body.into_eof().raw.to_vec());
+        }
+    }
+    let c = VCtx { sigs: sigs.clone(), data_size: data.len(), init_subs, runtime_subs, init };
+    let mut sections = vec![];
+    let mut types = vec![];
+    for idx in 0..nsec {
+        let mut e = Em::new(sigs[idx].0 as usize);
+        // section 0 reaches every other section and every sub-container
+        let mut todo: Vec<Box<dyn FnOnce(&mut Em, &mut Rng)>> = vec![];
+        if idx == 0 {
+            for j in 1..nsec {
+                let c2 = VCtx {
+                    sigs: c.sigs.clone(),
+                    data_size: c.data_size,
+                    init_subs: c.init_subs.clone(),
+                    runtime_subs: c.runtime_subs.clone(),
+                    init: c.init,
+                };
+                if sigs[j].1 != 0x80 {
+                    todo.push(Box::new(move |e: &mut Em, r: &mut Rng| v_callf(e, r, &c2, j)));
+                } else {
+                    todo.push(Box::new(move |e: &mut Em, r: &mut Rng| {
+                        v_early_exit(e, r, |s, r| {
+                            let ji = c2.sigs[j].0 as usize;
+                            s.need(ji, r);
+                            s.raw(&[0xe5, (j >> 8) as u8, j as u8], ji, 0);
+                        })
+                    }));
+                }
+            }
+            for k in c.init_subs.clone() {
+                todo.push(Box::new(move |e: &mut Em, r: &mut Rng| v_eofcreate(e, r, k)));
+            }
+            for k in c.runtime_subs.clone() {
+                todo.push(Box::new(move |e: &mut Em, r: &mut Rng| {
+                    v_early_exit(e, r, |s, r| {
+                        s.push(U256::from(r.below(40)), r);
+                        s.push(small_mem(r), r);
+                        s.raw(&[0xee, k], 2, 0);
+                    })
+                }));
+            }
+        }
+        let k = r.range(1, 9) as usize;
+        for _ in 0..k {
+            if !todo.is_empty() && r.chance(1, 2) {
+                let f = todo.remove(0);
+                f(&mut e, r);
+            } else {
+                v_item(&mut e, r, &c, idx);
+            }
+        }
+        for f in todo {
+            f(&mut e, r);
+        }
+        v_term(&mut e, r, &c, idx);
+        types.push((sigs[idx].0, sigs[idx].1, e.max as u16));
+        sections.push(e.code);
+    }
+    let mut p = gen_params(r, vec![]);
+    p.spec = *r.pick(&[19u8, 255]);
+    p.gas = match r.below(6) {
+        0 => r.below(3000),
+        1 => r.range(3000, 40_000),
+        _ => r.range(100_000, 3_000_000),
+    };
+    p.is_static = r.chance(1, 10);
+    p.eof = Some(EofParams { sections, types, data_size: data.len() as u16, data, containers, init });
+    p
+}
+
 fn gen(seed: u64, n: usize, out: &mut Out) -> Vec<String> {
     let mut r = Rng::new(seed ^ 0xC25);
     let mut lines = vec![];
@@ -2075,7 +2559,11 @@ fn gen(seed: u64, n: usize, out: &mut Out) -> Vec<String> {
     // DIFFICULTY under MERGE with `prevrandao = None`: the `unwrap()` of host_env.rs (excluded by `Env` validation)
     for _ in 0..n {
         if r.chance(1, 5) {
-            let p = if r.chance(1, 2) { gen_eof_directed(&mut r) } else { gen_eof_params(&mut r) };
+            let p = match r.below(5) {
+                0 | 1 => gen_eof_valid(&mut r),
+                2 | 3 => gen_eof_directed(&mut r),
+                _ => gen_eof_params(&mut r),
+            };
             out.count("case:eof");
             gen_case(&mut r, &p, 200, out, &mut lines);
             continue;
